@@ -20,6 +20,21 @@
 #define FN_MAIN ((uint_fast32_t)0)
 #define FN_BACK(i) ((uint_fast32_t)1 + (uint_fast32_t)(i))
 
+/* a name that is no file of the dump directory */
+#define FN_NONE (~(uint_fast32_t)0)
+
+/* std::stringstream used to build a file name: ghost name builder.
+ * TRUSTED (C++ standard, [stringstream], [ios.base]): a default-constructed
+ * stream is empty; operator<< appends; clear() resets only the error flags
+ * (the contents stay); str("") empties it. A stream holds the name of backup i
+ * exactly when "<path>/restart.<i>.back" was appended once to an empty stream. */
+struct cm_ss { uint_fast32_t groups; uint_fast32_t file; };
+static inline void cm_ss_append_backup_name(struct cm_ss *s, uint_fast32_t idx) {
+  s->file = (s->groups == 0) ? FN_BACK(idx) : FN_NONE;
+  if (s->groups < 2) s->groups++;
+}
+static inline uint_fast32_t cm_ss_file(const struct cm_ss *s) { return s->groups == 1 ? s->file : FN_NONE; }
+
 bool fs_exists[FS_CAP];
 bool fs_complete[FS_CAP];
 uint64_t fs_dump[FS_CAP];
